@@ -169,7 +169,10 @@ impl<E: FieldElement> EvaluationFrameExt<E> for &EvaluationFrame<E> {
 
     #[inline(always)]
     fn bitwise_flag(&self) -> E {
-        self.s(0) * binary_not(self.s_next(1))
+        // all transition constraints of the bitwise chiplet are gated by periodic columns, so the
+        // selector of the current row is used: the last row of the chiplet (which holds the output
+        // of the last operation) is constrained like any other row
+        self.s(0) * binary_not(self.s(1))
     }
 
     #[inline(always)]
